@@ -20,6 +20,7 @@ def make_interp(program, stats=None, extra=()):
     intr_coll.register(I)
     intr_serde.register(I)
     intr_misc.register(I)
+    intr_misc.register_glob(I)
     for mod in extra:
         mod.register(I)
     return I
